@@ -523,50 +523,50 @@ fn c17_posix_parse_upto_12() {
     whole(&bytes[..len]);
 }
 
-//@harness c17_posix_parse_upto_16
+//@harness c17_posix_parse_upto_32
 //@target x
 //@prop C17
 //@tier thorough
 //@timeout 1500
-//@bounded 16
+//@bounded 32
 //@doc experiment
 #[kani::proof]
 #[kani::stub(core::str::from_utf8, stub_from_utf8)]
-#[kani::unwind(18)]
-fn c17_posix_parse_upto_16() {
-    let bytes: [u8; 16] = kani::any();
-    let len: usize = kani::any(); kani::assume(1 <= len && len <= 16);
+#[kani::unwind(33)]
+fn c17_posix_parse_upto_32() {
+    let bytes: [u8; 32] = kani::any();
+    let len: usize = kani::any(); kani::assume(1 <= len && len <= 32);
     whole(&bytes[..len]);
 }
 
-//@harness c17_posix_parse_upto_20
+//@harness c17_posix_parse_upto_48
 //@target x
 //@prop C17
 //@tier thorough
 //@timeout 1500
-//@bounded 20
+//@bounded 48
 //@doc experiment
 #[kani::proof]
 #[kani::stub(core::str::from_utf8, stub_from_utf8)]
-#[kani::unwind(22)]
-fn c17_posix_parse_upto_20() {
-    let bytes: [u8; 20] = kani::any();
-    let len: usize = kani::any(); kani::assume(1 <= len && len <= 20);
+#[kani::unwind(33)]
+fn c17_posix_parse_upto_48() {
+    let bytes: [u8; 48] = kani::any();
+    let len: usize = kani::any(); kani::assume(1 <= len && len <= 48);
     whole(&bytes[..len]);
 }
 
-//@harness c17_posix_parse_upto_24
+//@harness c17_posix_parse_upto_60
 //@target x
 //@prop C17
 //@tier thorough
 //@timeout 1500
-//@bounded 24
+//@bounded 60
 //@doc experiment
 #[kani::proof]
 #[kani::stub(core::str::from_utf8, stub_from_utf8)]
-#[kani::unwind(26)]
-fn c17_posix_parse_upto_24() {
-    let bytes: [u8; 24] = kani::any();
-    let len: usize = kani::any(); kani::assume(1 <= len && len <= 24);
+#[kani::unwind(33)]
+fn c17_posix_parse_upto_60() {
+    let bytes: [u8; 60] = kani::any();
+    let len: usize = kani::any(); kani::assume(1 <= len && len <= 60);
     whole(&bytes[..len]);
 }
